@@ -94,14 +94,18 @@ def _replay_read(scn, fn, codec, profile):
     nonall = [k for k, ix in enumerate(i["idxs"]) if ix["k"] != "all"]
     spellings = ["getitem", "read_method", "read_nc", "read_nc_dict"]
     if not i["tol"]:
-        spellings += (["loc", "sel"] if i["mode"] == "label" else ["ix", "iloc", "isel"])
+        spellings += (["loc", "sel", "opt_ix", "opt_loc"] if i["mode"] == "label" else ["ix", "iloc", "isel", "opt_getitem", "opt_iloc"])
     for si, sp in enumerate(spellings):
         tup = index_tuple(i["idxs"], kinds, codec, i["mode"], si % 2)
         d = {dims[k]: tup[k] for k in nonall}
         calls += 1
         err = res = None
         h = None
+        prev_opt = None
         try:
+            if sp.startswith("opt_"):        # the handle is opened and used while indexing.by is 'position' (set long after the import)
+                prev_opt = A.da.get_option("indexing.by")
+                A.da.set_option("indexing.by", "position")
             kw = dict(indexing=i["mode"])
             if tol is not None:
                 kw["tol"] = tol
@@ -127,11 +131,21 @@ def _replay_read(scn, fn, codec, profile):
                     res = v.sel(**d)
                 elif sp == "isel":
                     res = v.isel(**d)
+                elif sp == "opt_getitem":     # default access follows the option: positions
+                    res = v[t1]
+                elif sp == "opt_iloc":
+                    res = v.iloc[t1]
+                elif sp == "opt_ix":          # .ix toggles: labels under indexing.by = position
+                    res = v.ix[t1]
+                elif sp == "opt_loc":
+                    res = v.loc[t1]
         except Exception as e:  # noqa
             err = e
         finally:
             if h is not None:
                 h.close()
+            if prev_opt is not None:
+                A.da.set_option("indexing.by", prev_opt)
         what = kind = None
         if exp["ok"]:
             if err is not None:
@@ -234,6 +248,8 @@ def _replay_assign(scn, fn, codec, profile):
     sps = ["setitem", "put"] if i["mode"] == "label" else ["ix", "put"]
     if tol is not None:
         sps = ["put"] + (["nloc"] if tol == np.inf else [])
+    elif i["rhs"]["shape"] and not i["two"] and exp["ok"]:
+        sps = sps + ["da_rhs"]          # the value given as a DimArray carrying the selected labels in reverse order: still positional
     for sp in sps:
         _write_file(fn, name, arr, codec)
         calls += 1
@@ -248,17 +264,27 @@ def _replay_assign(scn, fn, codec, profile):
                     tup = index_tuple(idxs, kinds, codec, mode, 0)
                     t1 = tup if len(tup) != 1 else tup[0]
                     val = _conc_rhs(rhs, dt)
+                    if sp == "da_rhs":
+                        sel = A.da.read_nc(fn, name).take(tup, indexing=mode)
+                        if isinstance(sel, A.DimArray) and np.shape(val) == sel.shape and sel.ndim:
+                            val = A.DimArray(val, axes=[A.Axis(ax.values[::-1], ax.name) for ax in sel.axes])
                     if sp == "nloc":
                         v.nloc[t1] = val
-                    elif sp == "put" or (mode == "position" and sp != "ix"):
+                    elif sp == "put" or (mode == "position" and sp not in ("ix", "da_rhs")):
                         if tol is not None and mode == "label":
                             v.write(tup, val, indexing=mode, tol=tol)
                         else:
                             v.write(tup, val, indexing=mode)
                     elif mode == "label":
-                        v[t1] = val
+                        import warnings
+                        with warnings.catch_warnings():
+                            warnings.simplefilter("ignore")
+                            v[t1] = val
                     else:
-                        v.ix[t1] = val
+                        import warnings
+                        with warnings.catch_warnings():
+                            warnings.simplefilter("ignore")
+                            v.ix[t1] = val
         except Exception as e:  # noqa
             err = e
         what = kind = None
